@@ -587,3 +587,55 @@ pub fn shrink_layout(l: &Layout) -> Vec<Layout> {
     }
     out
 }
+
+
+/// Names that are long and not ASCII: accessors that cut, pad or index decoded names meet character boundaries
+/// at every offset near 255 / 256 / 1024 / 4096 (components and whole names), in UTF-8-flagged and in CP437 names
+/// (each high byte decodes to a 2- or 3-byte character), with invalid UTF-8, NULs and both separators mixed in.
+pub fn awkward_long_name(r: &mut Rng) -> (Vec<u8>, bool) {
+    let boundary = r.pickc(&[255usize, 256, 255, 1024, 4096, 127, 64]);
+    let lead = (boundary as i64 - 3 + r.below(5) as i64).max(0) as usize;
+    let utf8 = r.chance(1, 2);
+    let mut v: Vec<u8> = vec![];
+    // leading ASCII run so that the multi-byte characters start right around the boundary
+    let lead_bytes = if utf8 { lead } else { lead / r.pickc(&[1usize, 2, 3]) };
+    for i in 0..lead_bytes {
+        v.push(b'a' + (i % 26) as u8);
+    }
+    let tail = r.range(1, 40) as usize;
+    if utf8 {
+        for _ in 0..tail {
+            match r.below(5) {
+                0 => v.extend_from_slice("\u{e9}".as_bytes()),
+                1 => v.extend_from_slice("\u{65e5}".as_bytes()),
+                2 => v.extend_from_slice("\u{1f600}".as_bytes()),
+                3 => v.push(0xff), // invalid: replaced by U+FFFD (3 bytes) when decoded
+                _ => v.push(b'z'),
+            }
+        }
+    } else {
+        for _ in 0..tail {
+            v.push(if r.chance(1, 4) { b'z' } else { 0x80 + r.below(128) as u8 });
+        }
+    }
+    match r.below(6) {
+        0 => {
+            // as one component among others
+            let mut w = b"dir/".to_vec();
+            w.extend_from_slice(&v);
+            w.extend_from_slice(b"/leaf");
+            v = w;
+        }
+        1 => v.push(b'/'),
+        2 => {
+            let at = r.usize_below(v.len().max(1));
+            v.insert(at, b'\\');
+        }
+        3 => {
+            let at = r.usize_below(v.len().max(1));
+            v.insert(at, 0);
+        }
+        _ => {}
+    }
+    (v, utf8)
+}
